@@ -79,6 +79,10 @@ pub enum Op {
     NewTask { task: Slot, wrap: Wrap, span: Option<Slot> },
     Poll { task: Slot, kind: PollKind, ready: bool },
     DropTask { task: Slot },
+    /// builds an Event value now (its property closure runs now); it is recorded later
+    EventNew { ev: Slot, n: u8 },
+    /// records a prepared event: on the span in `slot`, or (None) through the local parent
+    AddEventFrom { slot: Option<Slot>, ev: Slot },
     /// only inside a poll body: creates a child span of the local parent that the scripted future
     /// keeps across the suspension point; it is released when the future itself is dropped
     HoldChild,
